@@ -3,6 +3,8 @@ package main
 import (
 	"fmt"
 	"math/bits"
+	"sort"
+	"sync"
 
 	"verif/mc"
 	"verif/ref/qr"
@@ -195,6 +197,77 @@ func runDimensions() {
 }
 
 // ---------------------------------------------------------------------------------------
+// code word failures: each failing word implicates one or two table rows (the row the word
+// belongs to, the row the library assigned it to). The rows reported are a greedy minimum cover
+// of all failures, so that one wrong table entry yields one key.
+
+type cwFail struct {
+	cands []int
+	what  string
+	c     tblCase
+}
+
+type cwFails struct {
+	mu sync.Mutex
+	f  []cwFail
+}
+
+func (s *cwFails) add(what string, c tblCase, cands ...int) {
+	var cs []int
+	for _, x := range cands {
+		if x >= 0 {
+			cs = append(cs, x)
+		}
+	}
+	s.mu.Lock()
+	if len(s.f) < 200000 {
+		s.f = append(s.f, cwFail{cs, what, c})
+	}
+	s.mu.Unlock()
+}
+
+func (s *cwFails) report(prefix string, name func(int) string) {
+	s.mu.Lock()
+	defer s.mu.Unlock()
+	rest := s.f
+	sort.SliceStable(rest, func(a, b int) bool { return rest[a].what < rest[b].what })
+	for len(rest) > 0 {
+		count := map[int]int{}
+		for _, f := range rest {
+			for _, x := range f.cands {
+				count[x]++
+			}
+		}
+		best, bn := -1, 0
+		for x, n := range count {
+			if n > bn || (n == bn && x < best) {
+				best, bn = x, n
+			}
+		}
+		if best < 0 { // failures that implicate no row
+			chk.Violation(prefix+"unknown-row", fmt.Sprintf("%s [%d failing words]", rest[0].what, len(rest)), rest[0].c)
+			return
+		}
+		var keep []cwFail
+		var first *cwFail
+		for i := range rest {
+			hit := false
+			for _, x := range rest[i].cands {
+				hit = hit || x == best
+			}
+			if !hit {
+				keep = append(keep, rest[i])
+			} else if first == nil {
+				first = &rest[i]
+			}
+		}
+		chk.Violation(prefix+name(best), fmt.Sprintf("%s [%d failing words implicate this row]", first.what, bn), first.c)
+		rest = keep
+	}
+	s.f = nil
+}
+
+// ---------------------------------------------------------------------------------------
 // format information
 
 const formatXOR = 0b101010000010010 // ISO 18004, format information mask pattern
@@ -253,6 +326,7 @@ func runFormatWords() {
 			}
 		}
 	}
+	fails := &cwFails{}
 	chk.Range("format information: FormatInformation_DecodeFormatInformation(w,w) for ALL 32768 15-bit words (nearest valid word iff distance <= 3) and (W,x),(x,W) for all 32 valid words W x all 32768 x", 64,
 		func(i int) string { return fmt.Sprint("format job ", i) },
 		func(l *mc.Local, i int) {
@@ -277,18 +351,14 @@ func runFormatWords() {
 					case d <= 3:
 						l.Distinct("nontrivial", fmt.Sprint("fmt", w))
 						if got != n {
-							chk.Violation("C07/format-word/"+rows[n].name(), fmt.Sprintf("word %015b is at distance %d from the format word %015b of %s but decodes to %s", w, d, rows[n].word, rows[n].name(), fmtStr(rows, fi)), c)
+							fails.add(fmt.Sprintf("word %015b is at distance %d from the format word %015b of %s but decodes to %s", w, d, rows[n].word, rows[n].name(), fmtStr(rows, fi)), c, n, got)
 						}
 					case fi == nil:
 						// uncorrectable, rejected
 					case du <= 3 && got == nu:
 						// accepted through the library's second attempt without the XOR mask (see assumptions)
 					default:
-						k := "C07/format-word/unknown-row"
-						if got >= 0 {
-							k = "C07/format-word/" + rows[got].name()
-						}
-						chk.Violation(k, fmt.Sprintf("word %015b is at distance %d >= 4 from every valid format word (and %d from every un-masked one) but decodes to %s", w, d, du, fmtStr(rows, fi)), c)
+						fails.add(fmt.Sprintf("word %015b is at distance %d >= 4 from every valid format word (and %d from every un-masked one) but decodes to %s", w, d, du, fmtStr(rows, fi)), c, got)
 					}
 				}
 				return
@@ -316,12 +386,13 @@ func runFormatWords() {
 					}
 					ok := got == i-32 || (dx <= 3 && got == nx) || (dux <= 3 && got == nux)
 					if !ok {
-						chk.Violation("C07/format-word/"+r.name(), fmt.Sprintf("one copy is the exact format word %015b of %s, the other is %015b: decodes to %s", r.word, r.name(), x, fmtStr(rows, fi)), c)
+						fails.add(fmt.Sprintf("one copy is the exact format word %015b of %s, the other is %015b: decodes to %s", r.word, r.name(), x, fmtStr(rows, fi)), c, i-32, got)
 					}
 				}
 			}
 			l.Distinct("nontrivial", fmt.Sprint("fmtpair", i))
 		})
+	fails.report("C07/format-word/", func(i int) string { return rows[i].name() })
 	chk.Sample("format", tblCase{Kind: "table", Table: "format", Word: rows[13].word ^ 0x0111, Word2: rows[13].word ^ 0x0111})
 }
 
@@ -351,6 +422,7 @@ func runVersionWords() {
 		}
 	}
 	l.Merge()
+	fails := &cwFails{}
 	chk.Range("version information: Version_decodeVersionInformation for ALL 262144 18-bit words (the nearest of the 34 valid words iff distance <= 3, error otherwise); VERSION_DECODE_INFO == BCH(18,6) recomputation", 64,
 		func(i int) string { return fmt.Sprint("version-word job ", i) },
 		func(l *mc.Local, i int) {
@@ -378,13 +450,21 @@ func runVersionWords() {
 				if d <= 3 {
 					l.Distinct("nontrivial", fmt.Sprint("verword", w))
 					if got != nv {
-						chk.Violation(fmt.Sprintf("C07/version-word/v%d", nv), fmt.Sprintf("word %018b is at distance %d from the version word %018b of version %d but decodes to version %d (0 = rejected, err=%v)", w, d, words[nv], nv, got, err), c)
+						fails.add(fmt.Sprintf("word %018b is at distance %d from the version word %018b of version %d but decodes to version %d (0 = rejected, err=%v)", w, d, words[nv], nv, got, err), c, nv, nz(got))
 					}
 				} else if got != 0 {
-					chk.Violation(fmt.Sprintf("C07/version-word/v%d", got), fmt.Sprintf("word %018b is at distance %d >= 4 from every valid version word but decodes to version %d", w, d, got), c)
+					fails.add(fmt.Sprintf("word %018b is at distance %d >= 4 from every valid version word but decodes to version %d", w, d, got), c, got)
 				}
 			}
 		})
+	fails.report("C07/version-word/", func(v int) string { return fmt.Sprintf("v%d", v) })
+}
+
+func nz(x int) int {
+	if x == 0 {
+		return -1
+	}
+	return x
 }
 
 // ---------------------------------------------------------------------------------------
